@@ -1,4 +1,5 @@
 import LP.Props.C20
+import LP.Props.C20Heap
 #print axioms LP.SpecSet.C20_spec_insert
 #print axioms LP.SpecSet.C20_spec_remove
 #print axioms LP.SpecSet.C20_spec_size
@@ -8,3 +9,7 @@ import LP.Props.C20
 #print axioms LP.HSet.C20_close_length
 #print axioms LP.HSet.probe_spec
 #print axioms LP.HSet.C20_contains_sound
+#print axioms LP.Heap.siftUp_perm
+#print axioms LP.Heap.siftDown_perm
+#print axioms LP.Heap.C20_heap_push_perm
+#print axioms LP.Heap.C20_heap_pop_perm
